@@ -985,7 +985,7 @@ where
     /// # Errors
     /// Fails because of any IO errors.
     pub async fn fsyncdata(&self) -> IOResult<()> {
-        self.inner.fsyncdata().await
+        self.inner.fsyncdata_unconditionally().await
     }
 
     /// Force updates active blob on new one to dump index of old one on disk and free RAM.
@@ -1278,6 +1278,13 @@ where
             }
         }
 
+        safe.fsyncdata().await
+    }
+
+    /// Explicit sync requested by the user: performed regardless of the dirty bytes threshold
+    /// and of a background sync being in progress
+    pub(crate) async fn fsyncdata_unconditionally(&self) -> IOResult<()> {
+        let safe = self.safe.read().await;
         safe.fsyncdata().await
     }
 
